@@ -31,20 +31,25 @@ Lemma firstn_short {A} (l : list A) n : (length l <= n)%nat -> firstn n l = l.
 Proof. apply firstn_all2. Qed.
 
 (* ------------------------------------------------------------------ thread_metadata_store *)
+Opaque format.
 Lemma store_ok sx st fs :
   r_meta st = Some fs -> path_ok sx (r_tid st) = true ->
   thread_metadata_store sx st =
   ROk (tt, mkRs (p_st st) (p_app st) (p_loom st) (p_pid st) (r_ready st) (r_finished st) (r_tid st) (r_cpus st)
                 (r_node st) (r_rank_set st) (r_rank st) (r_nranks st) (r_meta st) (r_out st ++ [(thread_path sx (r_tid st), jobj fs)])).
 Proof.
-  intros M P. unfold path_ok in P. apply Z.ltb_lt in P.
+  intros M P. unfold path_ok, thread_path in *. apply Z.ltb_lt in P.
+  destruct st as [a1 a2 a3 a4 a5 a6 a7 a8 a9 a10 a11 a12 a13 a14].
+  cbv [r_meta r_tid] in M, P. subst a13.
   unfold thread_metadata_store.
   cbv [bind bind_ eval ite c_snprintf or_die_ne or_die get_rproc_procdir get_rthread_tid get_rthread_meta
-       json_serialize_to_file_pretty ret fst snd c_JSONSuccess].
-  fold (thread_path sx (r_tid st)). change (0 =? 0) with true. cbv iota.
-  destruct (Z.of_nat (length (thread_path sx (r_tid st))) >=? 4096) eqn:E; [lia|].
-  rewrite M. rewrite firstn_short by lia. reflexivity.
+       json_serialize_to_file_pretty ret fst snd c_JSONSuccess
+       p_st p_app p_loom p_pid r_ready r_finished r_tid r_cpus r_node r_rank_set r_rank r_nranks r_meta r_out].
+  change (0 =? 0) with true. cbv iota.
+  match goal with |- context [Z.of_nat (length ?l) >=? 4096] => destruct (Z.of_nat (length l) >=? 4096) eqn:E end; [lia|].
+  rewrite firstn_short by lia. reflexivity.
 Qed.
+Transparent format.
 
 (* ------------------------------------------------------------------ one call: generated code = RtMetaDefs.step *)
 (* the outcome of a generated function, started from the concretisation of the model state, against the model's step:
@@ -79,6 +84,13 @@ Ltac mon := cbv [bind bind_ eval ite ret fail or_die or_die_ne need upd
                  set_rthread_ready set_rthread_finished set_rthread_rank_set set_rthread_rank set_rthread_nranks
                  malloc_ovni_rcpu set_ovni_rcpu_index set_ovni_rcpu_phyid DL_APPEND_rthread_cpus with_node is_null].
 
+Ltac monp := cbv [bind bind_ eval ite ret fail or_die or_die_ne need upd
+                 get_rproc_st get_rproc_app get_rproc_pid get_rproc_loom get_rthread_ready get_rthread_finished get_rthread_tid
+                 get_rthread_rank_set get_rthread_rank get_rthread_nranks get_rthread_cpus get_rthread_meta
+                 set_rthread_ready set_rthread_finished set_rthread_rank_set set_rthread_rank set_rthread_nranks
+                 malloc_ovni_rcpu set_ovni_rcpu_index set_ovni_rcpu_phyid DL_APPEND_rthread_cpus with_node is_null
+                 p_st p_app p_loom p_pid r_ready r_finished r_tid r_cpus r_node r_rank_set r_rank r_nranks r_meta r_out fst snd
+                 t_ready t_finished t_tid t_cpus t_rank t_meta].
 Ltac prj := cbn [p_st p_app p_loom p_pid r_ready r_finished r_tid r_cpus r_node r_rank_set r_rank r_nranks r_meta r_out fst snd
                   t_ready t_finished t_tid t_cpus t_rank t_meta with_meta_].
 
@@ -86,9 +98,8 @@ Theorem add_cpu_from_source sx s th node out i p :
   agrees sx th out (ovni_add_cpu i p sx (rs_of s th node out)) (step src_cfg s th (AddCpu i p)) no_val.
 Proof.
   unfold step. destruct (in_dom (AddCpu i p)); cbn [negb]; [|exact I].
-  unfold ovni_add_cpu. mon. unfold rs_of, proc_ready.
-  destruct (tget (st_threads s) th) as [rd fin tid cpus rank meta] eqn:T. cbn [t_ready t_finished t_tid t_cpus t_rank t_meta].
-  cbn [p_st r_ready r_cpus r_node fst snd].
+  unfold ovni_add_cpu, rs_of, proc_ready.
+  destruct (tget (st_threads s) th) as [rd fin tid cpus rank meta] eqn:T. monp.
   destruct (i <? 0); [reflexivity|]. destruct (p <? 0); [reflexivity|].
   rewrite enc_ready. destruct (st_proc s) eqn:PS; cbn [negb]; try reflexivity.
   destruct rd; cbn [negb b2z Z.eqb]; [|reflexivity].
@@ -100,8 +111,8 @@ Theorem set_rank_from_source sx s th node out r n :
   agrees sx th out (ovni_proc_set_rank r n sx (rs_of s th node out)) (step src_cfg s th (ProcSetRank r n)) no_val.
 Proof.
   unfold step. destruct (in_dom (ProcSetRank r n)); cbn [negb]; [|exact I].
-  unfold ovni_proc_set_rank. mon. unfold rs_of, proc_ready.
-  destruct (tget (st_threads s) th) as [rd fin tid cpus rank meta] eqn:T. prj.
+  unfold ovni_proc_set_rank, rs_of, proc_ready.
+  destruct (tget (st_threads s) th) as [rd fin tid cpus rank meta] eqn:T. monp.
   rewrite enc_ready. destruct (st_proc s) eqn:PS; cbn [negb]; try reflexivity.
   destruct rd; cbn [negb b2z Z.eqb]; [|reflexivity].
   cbn [agrees]. exists tt, node. split; [|reflexivity].
@@ -343,12 +354,115 @@ Proof.
   rewrite G. cbn [wpath]. rewrite app_nil_r. reflexivity.
 Qed.
 
+(* ---- ovni_thread_free: rank, CPUs, ovni.finished, the store, then the flags (the calls outside the metadata state are the
+   identity of RtMetaPre.v) *)
+Lemma ds_rank fs v : dotset fs [111; 118; 110; 105; 46; 114; 97; 110; 107] v = pset fs [k_ovni; k_rank] v.
+Proof. reflexivity. Qed.
+Lemma ds_nranks fs v : dotset fs [111; 118; 110; 105; 46; 110; 114; 97; 110; 107; 115] v = pset fs [k_ovni; k_nranks] v.
+Proof. reflexivity. Qed.
+Lemma ds_finished fs v : dotset fs [111; 118; 110; 105; 46; 102; 105; 110; 105; 115; 104; 101; 100] v = pset fs [k_ovni; k_finished] v.
+Proof. reflexivity. Qed.
+Ltac monf := cbv [bind bind_ eval ite ret fail or_die get_rthread_finished get_rthread_ready get_rthread_meta get_rthread_rank_set
+       get_rthread_cpus get_rthread_rank get_rthread_nranks json_value_get_object set_thread_rank set_thread_cpus
+       json_object_dotset_number root_dotset str_lit free close move_thdir_to_final try_clean_dir set_rthread_evbuf
+       set_rthread_streamfd get_rthread_evbuf get_rthread_streamfd get_rproc_move_to_final get_rthread_thdir get_rthread_thdir_final
+       set_rthread_finished set_rthread_ready upd with_meta_ is_null
+       p_st p_app p_loom p_pid r_ready r_finished r_tid r_cpus r_node r_rank_set r_rank r_nranks r_meta r_out
+       t_ready t_finished t_tid t_cpus t_rank t_meta E_FAIL E_DIE Nat.eqb].
+Ltac align_pset PG :=
+  repeat match goal with |- context [pset ?a ?b ?c] =>
+           let H := fresh in assert (H : pset a b c = _) by exact PG; rewrite H; clear H end.
+Theorem thread_free_from_source : forall sx s th node out,
+  path_ok sx (t_tid (tget (st_threads s) th)) = true ->
+  agrees sx th out (ovni_thread_free sx (rs_of s th node out)) (step src_cfg s th ThreadFree) no_val.
+Proof.
+  intros sx s th node out P. unfold step. cbn [in_dom negb]. unfold ovni_thread_free, rs_of.
+  destruct (tget (st_threads s) th) as [rd fin tid cpus rank meta] eqn:T. cbn [t_tid] in P.
+  destruct fin; [monf; reflexivity|]. destruct rd; [|monf; reflexivity].
+  unfold free_tree. cbn [t_rank t_cpus t_meta psets t_finished t_ready].
+  destruct rank as [[r n]|]; destruct cpus as [|c0 cs];
+    repeat (monf; cbn [b2z Z.eqb negb orb]; rewrite ?ds_rank, ?ds_nranks, ?ds_finished;
+            match goal with |- context [pset ?a ?b ?c] => let PG := fresh "PG" in destruct (pset a b c) as [?fs|] eqn:PG; align_pset PG end).
+  all: try (monf; reflexivity).
+  all: monf; cbn [b2z Z.eqb negb orb].
+  all: match goal with |- context [thread_metadata_store ?e ?rs] =>
+         match rs with context [Some ?f] => rewrite (store_ok e rs f eq_refl P) end end.
+  all: monf; destruct (e_move sx =? 0); cbn [negb agrees]; exists tt, node; (split; [|reflexivity]);
+       rewrite rs_of_tset; monf; cbn [wpath b2z orb]; reflexivity.
+Qed.
+
+(* ---- the metadata part of ovni_thread_init *)
+(* rthread right after the memset and `rthread.tid = tid` of ovni_thread_init (not translated): nothing set but the tid *)
+Definition init_view (s : state) (tid : Z) (node : Z * Z) (out : list (str * json)) : rstate :=
+  mkRs (enc_pst (st_proc s)) (st_app s) (st_loom s) (st_pid s) 0 0 tid [] node 0 0 0 None out.
+(* the metadata part of ovni_thread_init, in the order of the C function: thread_metadata_init(); rthread.ready = 1;
+   ovni_thread_require("ovni", OVNI_MODEL_VERSION) - the three pieces are generated, the sequencing is written here *)
+Definition src_thread_init_meta : M unit :=
+  bind_ thread_metadata_init
+        (bind_ (set_rthread_ready (fun _ _ => 1)) (ovni_thread_require (str_lit k_ovni) (str_lit (c_model_version src_cfg)))).
+
+Lemma populate_from_source sx s tid node out :
+  exists fs, populate src_cfg s tid = Some fs /\
+    thread_metadata_populate sx (mkRs (enc_pst (st_proc s)) (st_app s) (st_loom s) (st_pid s) 0 0 tid [] node 0 0 0 (Some []) out) =
+    ROk (tt, mkRs (enc_pst (st_proc s)) (st_app s) (st_loom s) (st_pid s) 0 0 tid [] node 0 0 0 (Some fs) out).
+Proof.
+  destruct s as [pr a l p ts]. cbn [st_proc st_app st_loom st_pid]. generalize (enc_pst pr). intros e.
+  eexists. split; vm_compute; reflexivity.
+Qed.
+
+Theorem thread_init_metadata_from_source sx s th tid node out :
+  path_ok sx tid = true ->
+  exists node', src_thread_init_meta sx (init_view s tid node out) =
+  match populate src_cfg s tid with
+  | None => RErr E_DIE
+  | Some fs =>
+    match require_tree fs k_ovni (c_model_version src_cfg) with
+    | None => RErr E_DIE
+    | Some fs' => ROk (tt, rs_of (tset s th (mkT true false tid [] None fs')) th node' (out ++ [(thread_path sx tid, jobj fs)]))
+    end
+  end.
+Proof.
+  intros P. destruct (populate_from_source sx s tid node out) as (fs & PO & PG). rewrite PO.
+  unfold src_thread_init_meta, thread_metadata_init, init_view.
+  cbv [bind bind_ eval ite ret fail set_rthread_meta json_value_init_object with_meta_ get_rthread_meta is_null
+       p_st p_app p_loom p_pid r_ready r_finished r_tid r_cpus r_node r_rank_set r_rank r_nranks r_meta r_out].
+  rewrite PG.
+  match goal with |- context [thread_metadata_store ?e ?rs] => rewrite (store_ok e rs fs eq_refl P) end.
+  cbv [set_rthread_ready upd p_st p_app p_loom p_pid r_ready r_finished r_tid r_cpus r_node r_rank_set r_rank r_nranks r_meta r_out].
+  (* the state is the view of the thread with the populated tree: the require is the proved call *)
+  set (s1 := tset s th (mkT true false tid [] None fs)).
+  pose proof (require_from_source sx s1 th node (out ++ [(thread_path sx tid, jobj fs)]) k_ovni (c_model_version src_cfg)) as R.
+  unfold step in R. change (in_dom (Require k_ovni (c_model_version src_cfg))) with true in R. cbn [negb] in R.
+  unfold s1 in R. rewrite tget_tset_same in R. cbn [t_ready negb t_meta] in R. rewrite rs_of_tset in R.
+  cbn [t_ready t_finished t_tid t_cpus t_rank t_meta b2z orb] in R.
+  unfold str_lit.
+  destruct (require_tree fs k_ovni (c_model_version src_cfg)) as [fs'|].
+  - cbn [agrees] in R. destruct R as ([] & node' & R & _). exists node'. rewrite R. cbn [wpath]. rewrite app_nil_r.
+    unfold with_meta. cbn [t_ready t_finished t_tid t_cpus t_rank t_meta].
+    rewrite !rs_of_tset. reflexivity.
+  - cbn [agrees] in R. exists node. rewrite R. reflexivity.
+Qed.
+
+(* ... which is the model's ThreadInit case for a thread that passes the guards of ovni_thread_init (not ready, not finished,
+   tid <> 0, process ready: the untranslated head of the function) *)
+Theorem thread_init_step_from_source sx s th tid node out :
+  path_ok sx tid = true -> in_dom (ThreadInit tid) = true ->
+  t_ready (tget (st_threads s) th) = false -> t_finished (tget (st_threads s) th) = false -> tid <> 0 -> proc_ready s = true ->
+  agrees sx th out (src_thread_init_meta sx (init_view s tid node out)) (step src_cfg s th (ThreadInit tid)) no_val.
+Proof.
+  intros P D R F T0 PR. unfold step. rewrite D, R, F, PR. cbn [negb].
+  destruct (tid =? 0) eqn:E; [lia|].
+  destruct (thread_init_metadata_from_source sx s th tid node out P) as (node' & H). rewrite H.
+  destruct (populate src_cfg s tid) as [fs|]; [|reflexivity].
+  destruct (require_tree fs k_ovni (c_model_version src_cfg)) as [fs'|]; [|reflexivity].
+  cbn [agrees wpath]. exists tt, node'. split; reflexivity.
+Qed.
+
 (* ------------------------------------------------------------------ all translated calls at once *)
 (* What "the generated code computes the step of the model" means for each call of the API whose C function is translated
    and proved here.  NOT covered (the model's step stands alone for them): ovni_proc_init / ovni_proc_fini / ovni_flush
    (not metadata functions of the unit), ovni_thread_init (memset / malloc into a field: its metadata part
-   thread_metadata_init + ovni_thread_require IS generated), ovni_thread_free (generated, the equality with free_tree is
-   not proved in this file: tied by the tree comparison of lib/checks/c02.py). *)
+   thread_metadata_init + ovni_thread_require is generated and proved separately: thread_init_step_from_source). *)
 Definition call_agrees (sx : renv) (s : state) (th : nat) (node : Z * Z) (out : list (str * json)) (o : op) : Prop :=
   match o with
   | AddCpu i p => agrees sx th out (ovni_add_cpu i p sx (rs_of s th node out)) (step src_cfg s th o) no_val
@@ -371,6 +485,7 @@ Definition call_agrees (sx : renv) (s : state) (th : nat) (node : Z * Z) (out : 
   | AttrGetJson k => agrees sx th out (ovni_attr_get_json (Some k) sx (rs_of s th node out)) (step src_cfg s th o)
                             (fun a obs => exists j, a = Some (e_print sx j) /\ obs = Some j)
   | AttrFlush => agrees sx th out (ovni_attr_flush sx (rs_of s th node out)) (step src_cfg s th o) no_val
+  | ThreadFree => agrees sx th out (ovni_thread_free sx (rs_of s th node out)) (step src_cfg s th o) no_val
   | _ => True
   end.
 
@@ -391,6 +506,7 @@ Proof.
   - apply attr_get_boolean_from_source.
   - apply attr_get_json_from_source.
   - apply attr_flush_from_source. exact P.
+  - apply thread_free_from_source. exact P.
 Qed.
 
 (* whole programs: along the run of the model, every call is what the generated function computes from the concretisation
